@@ -147,3 +147,41 @@ func VerifC15_Admission() {
 	handled, err := TryPack(m, func(b []byte) error { calls++; return nil })
 	vAssert("foreign-or-nil-record-declined-without-output", !handled && err == nil && calls == 0)
 }
+
+// VerifC15_DeclineLeavesNoTrace: a message the packer gives up on half-way
+// (a record the library refuses to encode, met after names were already
+// written into the pooled dictionary) must leave nothing behind: the next
+// message packed on the same pooled state still gets the library's bytes.
+//
+//verif:entry tier=quick,thorough
+//verif:bound first message: compressible names + a record with a malformed address (3 or 5 octets) in answer or additional, Compress on/off; second message: as VerifC15_PackParity with 1 question, answer none/A/CNAME+A, no OPT, sharing name suffixes with the first
+func VerifC15_DeclineLeavesNoTrace() {
+	first := new(dns.Msg)
+	first.Compress = vBool("first.compress")
+	first.Question = []dns.Question{{Name: "www.example.org.", Qtype: dns.TypeA, Qclass: dns.ClassINET}}
+	first.Answer = []dns.RR{&dns.CNAME{Hdr: dns.RR_Header{Name: "www.example.org.", Rrtype: dns.TypeCNAME, Class: dns.ClassINET, Ttl: 30}, Target: "host.example.org."}}
+	badLen := 3
+	if vBool("first.bad5") {
+		badLen = 5
+	}
+	bad := &dns.A{Hdr: dns.RR_Header{Name: "host.example.org.", Rrtype: dns.TypeA, Class: dns.ClassINET, Ttl: 30}, A: make(net.IP, badLen)}
+	if vBool("first.badInExtra") {
+		first.Extra = []dns.RR{bad}
+	} else {
+		first.Answer = append(first.Answer, bad)
+	}
+	calls := 0
+	handled, _ := TryPack(first, func(b []byte) error { calls++; return nil })
+	_, libErr := first.Pack()
+	vAssert("library-refuses-the-first-message", libErr != nil)
+	vAssert("unpackable-message-declined-without-output", !handled && calls == 0)
+
+	m := c15Msg()
+	vAssume(m.Rcode >= 0 && m.Rcode <= 15)
+	var got []byte
+	handled2, err2 := TryPack(m, func(b []byte) error { got = append([]byte(nil), b...); return nil })
+	want, perr := m.Pack()
+	if handled2 {
+		vAssert("second-pack-still-identical-to-library", err2 == nil && perr == nil && c15Bytes(got, want))
+	}
+}
